@@ -8,6 +8,7 @@ unchanged world: `World.stepTokens2`, `failop`), and their real-code counterpart
 the fault-injection stream (every individual ReadAt/Stat/Truncate/WriteAt, see bin/check C07).
 -/
 import Gkv.Proofs.GlueA
+import Gkv.Gen.IgnoredErrors
 open Std
 
 namespace Gkv.Props.C07
@@ -48,5 +49,24 @@ theorem unfired_fault_is_invisible (cs : List Coll) (s : FileSt) (h0 : s.failed 
     (flushStore cs s).2.size = (flushStore cs { s with failAt := none }).2.size ∧
     (flushStore cs s).1 = (flushStore cs { s with failAt := none }).1 :=
   flushStore_unfailed_same_bytes cs s h0 hok
+
+
+/-! ### no other error is dropped (regenerated table)
+
+`Gen/IgnoredErrors.lean` is rewritten from /repo's typed syntax tree on every run: every call whose
+last result is an `error` that is assigned to `_` or not bound at all (fmt's printers and writes to
+a `bytes.Buffer`, which cannot fail, left out as `errcheck` does).  The reviewed list:
+`Exist` drops `GetItem`'s error (known finding F14: a read error makes it answer `false`);
+the public `EvictSomeItems` drops the error of its walk (a best-effort cache hint: no answer to get
+wrong; `CopyTo` uses the error-returning `evictSomeItems` since the F13 repair);
+`visitNodes` re-reads, twice, a node it has already loaded (never reaches the file);
+`dump` is an unexported debug printer.  A new entry — a newly swallowed error — refutes this. -/
+theorem no_other_error_is_dropped :
+    Gen.IgnoredErrors.sites =
+      [("Collection.EvictSomeItems", "evictSomeItems", "blank"),
+       ("Collection.Exist", "GetItem", "blank"),
+       ("Store.visitNodes", "read", "blank"),
+       ("Store.visitNodes", "read", "blank"),
+       ("dump", "read", "blank")] := by decide
 
 end Gkv.Props.C07
